@@ -212,4 +212,5 @@ fn monotonic_timestamp_generator_is_monotonic_with_concurrency() {
 
 // Verification hook (inert unless built by `cargo kani`, which sets --cfg kani).
 #[cfg(kani)]
+#[rustfmt::skip] // the module file only exists in the verification scratch tree
 mod verif_kani;
